@@ -17,6 +17,10 @@ THEOREMS = [
     "PorepyVerif.C37.components_give_blocks",
     "PorepyVerif.C37.gaussJordan_left_inverse",
     "PorepyVerif.C37.gaussJordan_correct_partial",
+    "PorepyVerif.C37.gaussJordan_complete",
+    "PorepyVerif.C37.gaussJordan_correct",
+    "PorepyVerif.C37.invertDiagonalBlocks_correct",
+    "PorepyVerif.C37.invertPermuted_correct",
     "PorepyVerif.C37.invertAll_correct",
     "PorepyVerif.C37.components_closed",
     "PorepyVerif.C37.components_minimal",
@@ -61,20 +65,25 @@ EXPLANATION = (
     "re-indexing by bijections preserves invertibility), permuted_blockdiag_inv (their composition = what invert_permuted_block_diag_matrix "
     "computes), closed_pattern_blockdiag + components_give_blocks (a row/column classification closed under the non-zero pattern of an "
     "invertible matrix exposes square, two-sided invertible blocks: the 'Block mismatch' assertion cannot fire on nonsingular input). "
-    "CORE (executable model over exact rationals): gaussJordan_left_inverse and gaussJordan_correct_partial are THEOREMS (if the exact "
-    "Gauss-Jordan returns X then X*A = I on lists, and A*X = 1, X*A = 1, A^-1 = X as Mathlib matrices); completeness ('nonsingular implies "
-    "some') is NOT proved. invertAll_correct, blockDiag_layout (zero sizes dropped, diagonal blocks extracted, indices/indptr/data are the "
-    "row-wise listing of the inverted blocks), components_closed + components_minimal (the label classes are exactly the connected "
-    "components of the bipartite pattern graph), components_partition (row_perm is a permutation; col_perm is one when no row is all zero; "
-    "the hypothesis is necessary), permSearch_blocks_square (meaning of the returned triple; every non-zero lies inside a reported square "
-    "block). RUN-TIME CHECKED in the driver on every case, NOT theorems: A*X = I and X*A = I exactly over the rationals for the assembled "
-    "block-diagonal inverse (dense reading of the model's csr arrays) and for the un-permuted inverse (a failure is answered as "
-    "model-failure and shows up as a disagreement). Correspondence: csr layout (format, shape, indices, indptr) exact, inverse values with "
+    "CORE (executable model over exact rationals): gaussJordan_left_inverse, gaussJordan_correct_partial, gaussJordan_complete and "
+    "gaussJordan_correct are THEOREMS: the exact Gauss-Jordan returns some X exactly when the matrix is nonsingular, and then X*A = I on "
+    "lists and A*X = 1, X*A = 1, A^-1 = X as Mathlib matrices. invertAll_correct, blockDiag_layout (zero sizes dropped, diagonal blocks "
+    "extracted, indices/indptr/data are the row-wise listing of the inverted blocks), invertDiagonalBlocks_correct (a matrix that equals "
+    "the block-diagonal assembly of its own diagonal blocks is inverted by invert_diagonal_blocks as a whole) and invertPermuted_correct "
+    "(for permutations rp, cp such that A[rp][:, cp] is block diagonal with the given sizes, the model of "
+    "invert_permuted_block_diag_matrix returns A^-1) are THEOREMS too, so the exact identity check A*X = I = X*A that the driver performs "
+    "on every case is redundancy now (a failure would be answered as model-failure). components_closed + components_minimal (the label "
+    "classes are exactly the connected components of the bipartite pattern graph), components_partition (row_perm is a permutation; "
+    "col_perm is one when no row is all zero; the hypothesis is necessary, with an example of a duplicate in col_perm for a zero row i and "
+    "a zero column j != i), permSearch_blocks_square (meaning of the returned triple; every non-zero lies inside a reported square block). "
+    "NOT proved: that the triple returned by permSearch satisfies the positional block-diagonality hypothesis of invertPermuted_correct "
+    "(it is proved in membership form only), and completeness of the two pipelines (nonsingular input implies some). "
+    "Correspondence: csr layout (format, shape, indices, indptr) exact, inverse values with "
     "tolerance 1e-9 for the python and numba paths, the permutation as a partition (sorted blocks), the permuted inverse with the computed "
     "and with the generator's permutation, error kinds for singular / non-square / empty input. The oracle checks the property on the real "
     "code independently of the model (residuals of both inverters, layout, permutation validity, block-diagonality, blocks = connected "
-    "components by an independent union-find, residual of the permuted inverter). Open findings (known_findings.d/C37.json): stored zeros "
-    "outside the block pattern and duplicate stored entries break the inverters; the model follows the property (value semantics).")
+    "components by an independent union-find, residual of the permuted inverter). Findings of this check (stored zeros outside the block pattern and duplicate stored entries broke the inverters) were repaired in "
+    "/repo (fix: block-diagonal inversion mishandled explicitly stored zeros and duplicate entries); the model uses value semantics.")
 ASSUMPTIONS = ["block values are exactly representable in binary64 and well conditioned (row-wise diagonally dominant up to a row permutation), so that the LAPACK result is within 1e-9 of the exact rational inverse",
                "singular malformed blocks are singular in a way LAPACK detects exactly (zero row, zero column, duplicated row)"]
 
